@@ -191,5 +191,56 @@ theorem tryInv_state (cfg : TryCfg M R V E) (plan : Beh M R V E) (hist : List (I
   exact Machine.state_inv _ (TryInv cfg) (fun s i h => tryStep_inv cfg plan s i h) _
     (by simp [TryInv]) hist
 
+def isFinalStart : Ev V E → Bool
+  | .finalStart => true
+  | _ => false
+def isElseStart : Ev V E → Bool
+  | .elseStart => true
+  | _ => false
+def isExceptStart : Ev V E → Bool
+  | .exceptStart _ => true
+  | _ => false
+def isPauseStart : Ev V E → Bool
+  | .pauseStart => true
+  | _ => false
+def isBodyEnd : Ev V E → Bool
+  | .bodyEnd _ => true
+  | _ => false
+
+/-- how often each piece was started, as a function of the log shape -/
+theorem tryInv_counts (cfg : TryCfg M R V E) (s : TrySt M R V E) (h : TryInv cfg s) :
+    s.log.countP isFinalStart ≤ 1 ∧ s.log.countP isElseStart ≤ 1 ∧
+    s.log.countP isExceptStart ≤ 1 ∧ s.log.countP isPauseStart ≤ 1 ∧
+    s.log.countP isBodyEnd ≤ 1 := by
+  obtain ⟨ph, log⟩ := s
+  cases ph with
+  | init => simp [TryInv] at h; simp [h]
+  | body p => simp [TryInv] at h; simp [h]
+  | pause e p =>
+    simp [TryInv] at h
+    simp [h.1, isFinalStart, isElseStart, isExceptStart, isPauseStart, isBodyEnd, List.countP_cons]
+  | exc e pz p =>
+    simp [TryInv] at h
+    rcases pz with _ | o <;>
+      simp [h.1, pzLog, isFinalStart, isElseStart, isExceptStart, isPauseStart, isBodyEnd, List.countP_cons]
+  | els v p =>
+    simp [TryInv] at h
+    simp [h.1, isFinalStart, isElseStart, isExceptStart, isPauseStart, isBodyEnd, List.countP_cons]
+  | fin path p =>
+    simp [TryInv] at h
+    rcases path with v | ⟨v, o⟩ | e | ⟨e, _ | pz, _ | ex⟩ <;>
+      simp [h.1, Path.log, pzLog, exLog, isFinalStart, isElseStart, isExceptStart, isPauseStart,
+        isBodyEnd, List.countP_cons]
+  | done d =>
+    simp [TryInv] at h
+    rcases d with e | path | ⟨path, o⟩
+    · simp [h.1, DoneInfo.log, isFinalStart, isElseStart, isExceptStart, isPauseStart, isBodyEnd, List.countP_cons]
+    · rcases path with v | ⟨v, o⟩ | e | ⟨e, _ | pz, _ | ex⟩ <;>
+        simp [h.1, DoneInfo.log, Path.log, pzLog, exLog, isFinalStart, isElseStart, isExceptStart,
+          isPauseStart, isBodyEnd, List.countP_cons]
+    · rcases path with v | ⟨v, o⟩ | e | ⟨e, _ | pz, _ | ex⟩ <;>
+        simp [h.1, DoneInfo.log, Path.log, pzLog, exLog, isFinalStart, isElseStart, isExceptStart,
+          isPauseStart, isBodyEnd, List.countP_cons]
+
 end
 end BlueskyVerif.Gen
